@@ -47,6 +47,13 @@ def family(seed, tier):
                     b["opr"].setdefault("raw", []).append({"extids": ext, "content": content})
                 elif which == "spr" and "spr" in b:
                     b["spr"].setdefault("raw", []).append({"extids": ext, "content": content})
+        # 1b. well-signed entries whose content slips through the decoder's length accounting (no "type" member)
+        for h in rnd.sample(hs, min(2, len(hs))):
+            u = rnd.choice(users)
+            amt = rnd.choice([0, 0, 1, 5])
+            filler = rnd.choice(['"aaaaaaaaaaaaaaaaaaaaaaa":0', '"bbbbbbbbbbbbbbbbbbbbbb":10', '"cccccccccccccccccccc":"x"'])
+            s.block(h).setdefault("entries", []).append({"id": s.eid("lc"), "signer": u, "txs": [],
+                "content": '{"version":1,"transactions":[{"input":{"address":"${%s}","amount":%d,%s},"transfers":[{"address":"${%s}","amount":%d}]}]}' % (u, amt, filler, users[0], amt)})
         # 2. repeated entry hashes in every state: same block, next block, later blocks
         if not legacy:
             ents = [(h, e) for h in hs for e in s.blocks[h].get("entries", []) if e.get("txs") and not e.get("dupOf") and not e.get("raw")]
